@@ -218,7 +218,9 @@ package stdlibspec
 //@   fresh
 //@   ensures result != nil && result.Method == r.Method && result.URL != nil
 //@   ensures r.Header != nil ==> result.Header != nil && fresh(result.Header)
+//@   ensures r.Header == nil ==> result.Header == nil
 //@   ensures forall k string :: has(result.Header, k) == has(r.Header, k) && hget(result.Header, k) == hget(r.Header, k)
+//@   ensures hget(result.Header, "Cache-Control") == hget(r.Header, "Cache-Control") && hget(result.Header, "Range") == hget(r.Header, "Range")
 //@ extern (*net/http.Request).WithContext(r, ctx)
 //@   pure
 //@   fresh
